@@ -10,6 +10,7 @@ import (
 	"sync"
 	"time"
 
+	"github.com/gotd/td/clock"
 	"github.com/gotd/td/crypto"
 	"github.com/gotd/td/exchange"
 	"github.com/gotd/td/mtproto"
@@ -37,7 +38,15 @@ type c12Cell struct {
 	StallStep int    // 0: no stall (control); 2 resPQ, 5 server_DH_params, 8 dh_gen answer withheld
 	PreCode   int    // transport error code delivered PreK times at the stall point before the silence (0: none)
 	PreK      int
+	Skew      time.Duration // the exchanger's / connection's clock.Clock shows host time + Skew
 }
+
+// skewClock is a clock.Clock that runs ahead of (or behind) host time by d; timers are real.
+type skewClock struct{ d time.Duration }
+
+func (s skewClock) Now() time.Time                      { return time.Now().Add(s.d) }
+func (s skewClock) Timer(d time.Duration) clock.Timer   { return clock.System.Timer(d) }
+func (s skewClock) Ticker(d time.Duration) clock.Ticker { return clock.System.Ticker(d) }
 
 func (c c12Cell) id() string {
 	m := ""
@@ -50,6 +59,9 @@ func (c c12Cell) id() string {
 	pre := ""
 	if c.PreK > 0 {
 		pre = fmt.Sprintf("/pre=%dx-%d", c.PreK, c.PreCode)
+	}
+	if c.Skew != 0 {
+		pre += fmt.Sprintf("/clock=%+v", c.Skew)
 	}
 	return fmt.Sprintf("%s%s/caller=%s/stall=%d.%d%s", c.Entry, m, c.Caller, c.StallExch, c.StallStep, pre)
 }
@@ -252,6 +264,9 @@ func runC12Cell(d *dataSet, cell c12Cell, seed *rand.Rand, T time.Duration) (out
 			switch cell.Entry {
 			case "exchange":
 				ex := exchange.NewExchanger(conn, 2).WithRand(cRand).WithTimeout(T)
+				if cell.Skew != 0 {
+					ex = ex.WithClock(skewClock{cell.Skew})
+				}
 				if cell.Temp {
 					ex = ex.WithTempMode(3600)
 				}
@@ -264,6 +279,9 @@ func runC12Cell(d *dataSet, cell c12Cell, seed *rand.Rand, T time.Duration) (out
 					PingInterval: time.Hour, PingTimeout: time.Hour, SaltFetchInterval: time.Hour,
 					AckInterval: time.Hour, RetryInterval: time.Hour,
 					EnablePFS: cell.Entry == "conn-pfs",
+				}
+				if cell.Skew != 0 {
+					opt.Clock = skewClock{cell.Skew}
 				}
 				if cell.Entry == "conn-regen" {
 					var k crypto.Key
@@ -426,6 +444,23 @@ func c12Cells() []c12Cell {
 			}
 		}
 	}
+	// the exchanger's / connection's clock is skewed against host time: the bound is on real (host) time,
+	// "now" of the oracle is the host time of the call whatever the configured clock shows
+	for _, skew := range []time.Duration{30 * time.Second, 10 * time.Minute, 24 * time.Hour, -10 * time.Minute} {
+		for _, step := range []int{0, 2, 5, 8} {
+			for _, e := range []c12Cell{{Entry: "exchange"}, {Entry: "exchange", Temp: true}, {Entry: "conn-nopfs"}, {Entry: "conn-regen"},
+				{Entry: "conn-pfs"}, {Entry: "conn-pfs", StallExch: 2}} {
+				if step == 0 && e.StallExch == 2 {
+					continue
+				}
+				e.Caller, e.StallStep, e.Skew = "none", step, skew
+				if step != 0 && e.StallExch == 0 {
+					e.StallExch = 1
+				}
+				cells = append(cells, e)
+			}
+		}
+	}
 	// the peer first delivers transport error frames at the read step, then falls silent:
 	// -404 is skipped by the ResPQ read (re-read), any other code must fail the step at once
 	for _, caller := range []string{"none", "long"} {
@@ -449,7 +484,8 @@ func runC12(c *mon.Ctx) {
 	c.Rule("cells = entry point {exchange.ClientExchange.Run perm/temp, mtproto.Conn.Run without PFS (fresh key), with PFS (permanent then temporary exchange), " +
 		"regeneration after a transport -404 with a preset key} x caller context {no deadline, 3 h deadline, 5 min deadline with 1 h exchange timeout} x " +
 		"silent peer at {none, resPQ, server_DH_params, dh_gen} of each exchange, plus (caller none / far deadline) the peer delivering k in {1,2,5} transport -404 frames or one -429 frame " +
-		"at that read step before falling silent, enumerated completely per repetition; the transport records ctx.Deadline() of every " +
+		"at that read step before falling silent, plus (caller none) the exchanger / connection clock.Clock skewed by +30 s, +10 min, +24 h, -10 min against host time for every entry point and stall step, " +
+		"enumerated completely per repetition; the oracle's now is the host time of the call; the transport records ctx.Deadline() of every " +
 		"Send/Recv of the client flow; a case is one judged Send/Recv; distinct non-trivial = (cell, op, step, deadline class)")
 	c.Assume("the harness transport honours exactly the context deadline (as transport.connection does via SetRead/WriteDeadline) and not cancellation")
 	c.Assume("a step is bounded iff deadline - time_of_call <= configured exchange timeout; time_of_call is read after the flow built its context, so scheduling delay can only shrink the difference")
